@@ -9,7 +9,6 @@ import (
 	"fmt"
 	"io"
 	"net"
-	"os"
 	"runtime"
 	"strings"
 	"sync"
@@ -458,7 +457,7 @@ func TestCheck(t *testing.T) {
 	// ------------------------------------------------ E. TCP loopback
 	tcpAndWS(r, rng)
 
-	os.Exit(r.Finish(200))
+	h.Exit(r.Finish(200))
 }
 
 type endless struct {
